@@ -1,6 +1,7 @@
 //! `nvh` — verification harness for narwhal: translator + correspondence suites.
 //! Usage: nvh <suite> --seed N --cases N --out FILE [--steps N] [--only CASE]
 mod oracle;
+mod pool_suite;
 mod reader_suite;
 mod rng;
 mod srv;
@@ -132,6 +133,8 @@ fn suite_srv(a: &Args) {
 }
 
 fn main() {
+  // panics of the code under test are caught and reported per case; keep their backtraces out of the transcript
+  std::panic::set_hook(Box::new(|_| {}));
   let a = parse_args();
   match a.suite.as_str() {
     "srv" => suite_srv(&a),
@@ -151,6 +154,10 @@ fn main() {
         out.runs,
         out.seg_dependent.len()
       ));
+      std::fs::write(&a.out, t).expect("write transcript");
+    },
+    "pool" => {
+      let t = pool_suite::run_suite(a.seed, a.cases);
       std::fs::write(&a.out, t).expect("write transcript");
     },
     "writer" => {
